@@ -344,8 +344,27 @@ def stale_check(svg, tier):
     return stale.Stale(svg, measures, kinds=[], extra_sources=sources, extra_mutations=extra, depth=2)
 
 
+def refused_check(svg):
+    """a conversion call that is refused (error=0, a non-numeric error) must leave the path complete: the retry converts
+    every arc and keeps everything else"""
+    from props import failsafe
+    mk = lambda: svg.Path("M0,0 L10,0 A5,5 0 0 1 20,0 L30,0 a8,3 30 1 0 5,5 z")
+    sc = []
+    for conv in ("cubics", "quads"):
+        for bn, bad in (("error=0", 0), ("error=None", None), ("error='x'", "x")):
+            def attempt(p, conv=conv, bad=bad):
+                getattr(p, "approximate_arcs_with_" + conv)(error=bad)
+
+            def follow(p, conv=conv):
+                getattr(p, "approximate_arcs_with_" + conv)(error=0.1)
+                return [repr(s) for s in p]
+            sc.append(dict(name="approximate_arcs_with_%s(%s)" % (conv, bn), fresh=mk, attempt=attempt,
+                           follow={"retry with error=0.1": follow, "d()": lambda p: p.d()}))
+    return failsafe.Refused(svg, sc)
+
+
 def build(tier, seed, svg):
-    return [Arcs(svg, tier), Embedded(svg, tier), stale_check(svg, tier)]
+    return [Arcs(svg, tier), Embedded(svg, tier), stale_check(svg, tier), refused_check(svg)]
 
 
 MATCHERS = {}
